@@ -6,7 +6,7 @@ VARIABLE t
 TermSet == IF Depth = 2 THEN T2 ELSE T3
 RECURSIVE Size(_)
 Size(x) == CASE x.op \in {"just", "fail", "stop"} -> 1
-             [] x.op \in {"when_all", "when_all_vector"} -> 1 + Size(x.a) + 3 * Size(x.b)
+             [] x.op \in {"when_all", "when_all_vector", "drop_wa"} -> 1 + Size(x.a) + 3 * Size(x.b)
              [] OTHER -> 2 + 5 * Size(x.s) + (IF x.op = "then" THEN 1 ELSE IF x.op = "let_value" THEN 2 ELSE 3)
 Init == t \in TermSet
 Next == UNCHANGED t
